@@ -171,7 +171,7 @@ def run_case(case):
         viol.append((sig("non-finite"), f"shift={shift.tolist()}"))
     elif err.max() > tol + 1e-6:
         rel = err.max() / tol
-        bucket = "err<=1.2tol" if rel <= 1.2 + 1e-6 else ("err<=1.6tol" if rel <= 1.6 + 1e-6 else ("err<=2tol" if rel <= 2 else "err>2tol"))
+        bucket = "err<=1.2tol" if rel <= 1.2 + 1e-6 else ("err<=1.6tol" if rel <= 1.6 + 1e-6 else ("err<=2tol" if rel <= 2 + 1e-6 else "err>2tol"))
         viol.append((sig("displacement") + "|" + bucket, f"d={d.tolist()} M={M.tolist()} shape={shape}: returned shift {np.round(shift, 3).tolist()} (error {err.max():.3f} px > {tol})"))
     q = np.asarray(res.quat, dtype=np.float64)
     if abs(abs(q[3]) - 1.0) > 1e-6 or np.abs(q[:3]).max() > 1e-6:
